@@ -225,6 +225,56 @@ def wrapperProtocol : List (String × List String) :=
 theorem C09_script_methods_are_wrappers :
     Generated.C09ChanLocks.wrappers = wrapperProtocol := by decide
 
+/-! ### the class / dispatch layer is write-free after construction
+
+A script call `$ch->send($v)` reaches `Channel.Send` through the class object of the Channel instance
+(`ChannelClass.GetMethod`, the `Channel*Method` objects) on whichever goroutine `spawn` started, with no
+lock of its own. The model's steps start at `Channel`; what makes that sound is that everything in front
+of it is immutable once the object exists. Regenerated from **every** file of `std/channel`: the types of
+the package with their fields, every statement that writes anything but a plain local variable, the
+package-level variables and the `go` statements. -/
+
+/-- a dispatch-layer object may hold nothing but a reference to the channel or to its class object -/
+def refOnly (ty : String) : Bool := ty == "*Channel" || ty == "*ChannelClass"
+
+/-- the only writes of non-local state in the package: the two fields `Construct` replaces -/
+def constructWrites : List String := ["Channel.Construct:c.channel", "Channel.Construct:c.done"]
+
+/-- the events between `lock` and the next `unlock` -/
+def insideLock : List Ev → List Ev
+  | [] => []
+  | .lock :: rest => rest.takeWhile (· != .unlock)
+  | _ :: rest => insideLock rest
+
+/-- Write-free after construction: every field of every type of the package other than `Channel` is a
+reference (`*Channel` / `*ChannelClass`) — no map, slice, counter, flag or cache can live in the
+dispatch layer —, the only statements of the package that write non-local state are the two
+assignments of `Construct`, and those sit inside its exclusive lock (the lock facts of
+`C09_locks_match_model`); no package-level variable other than the verif hook; no `go` statement. -/
+def DispatchWriteFree (types : List (String × List (String × String))) (writes vars gos : List String)
+    (construct : List Ev) : Bool :=
+  types.all (fun t => t.2.all (fun f => refOnly f.2)) &&
+  writes == constructWrites &&
+  insideLock construct == [.makeChan, .makeDone, .storeFlag] &&
+  vars.all (· == "VerifYield") &&
+  gos.isEmpty
+
+theorem C09_dispatch_layer_write_free :
+    DispatchWriteFree Generated.C09ChanLocks.dispatchTypes Generated.C09ChanLocks.sharedWrites
+      Generated.C09ChanLocks.pkgVars Generated.C09ChanLocks.goStmts Generated.C09ChanLocks.construct = true := by
+  decide
+
+/-- non-vacuity: the predicate rejects a lazily filled per-object cache (a map field written by
+`GetMethod`), a write outside the lock, a package-level table and a goroutine started by the glue -/
+example : DispatchWriteFree [("ChannelClass", [("channel", "*Channel"), ("methods", "map[string]data.Method")])]
+    (constructWrites ++ ["ChannelClass.GetMethod:c.methods[name]"]) ["VerifYield"] [] constructProtocol = false := by decide
+example : DispatchWriteFree [("ChannelClass", [("channel", "*Channel")])] constructWrites ["VerifYield"] []
+    [.callClose, .makeChan, .lock, .makeDone, .storeFlag, .unlock] = false := by decide
+example : DispatchWriteFree [] constructWrites ["VerifYield", "methodTable"] [] constructProtocol = false := by decide
+example : DispatchWriteFree [] constructWrites [] ["ChannelCloseMethod.Call"] constructProtocol = false := by decide
+example : DispatchWriteFree [("ChannelSendMethod", [("source", "*ChannelClass")])] constructWrites ["VerifYield"] []
+    constructProtocol = true := by decide
+
 /-! ### the pinned (pre-fix) protocol violated `no_panic`
 
 `∀ cap prog sched, (ChanRacy.exec (ChanRacy.init cap prog) sched).panicked = false` is **false** for
